@@ -142,10 +142,10 @@ type caseState struct {
 	viols []violation
 	nviol int64
 
-	callsOK, callsFailed, pushesSent, pushesOK, rawPushes, acceptAsked int64
-	failSamples                                                        []string
-	pushSeen                                                           sync.Map
-	pushRecv                                                           int64
+	callsOK, callsFailed, pushesSent, pushesOK, rawPushes, acceptAsked, bare int64
+	failSamples                                                              []string
+	pushSeen                                                                 sync.Map
+	pushRecv                                                                 int64
 }
 
 func (cs *caseState) report(symptom, kind, detail string) {
@@ -192,6 +192,14 @@ func dupMetaOK(proto string) bool {
 }
 
 func settings(cfg Config, kind, t string) []erpc.MessageSetting {
+	if tok.Bare(t) {
+		// no metadata at all; half of them also without the configuration's filter pipe
+		s := []erpc.MessageSetting{erpc.WithBodyCodec(tok.CodecID(kind))}
+		if cfg.Pipe != "" && fnv(t)%2 == 0 {
+			s = append(s, erpc.WithXferPipe([]byte(cfg.Pipe)...))
+		}
+		return s
+	}
 	s := []erpc.MessageSetting{erpc.WithBodyCodec(tok.CodecID(kind)), erpc.WithSetMeta("Tok", t), erpc.WithSetMeta("M1", tok.MetaVal(t, 1))}
 	if dupMetaOK(cfg.Proto) && tok.DupMeta(t) {
 		s = append(s, erpc.WithSetMeta("Dn", "2"), erpc.WithAddMeta("Dup", tok.MetaVal(t, 3)), erpc.WithAddMeta("Dup", tok.MetaVal(t, 4)))
@@ -238,6 +246,18 @@ func (cs *caseState) checkReply(kind, t string, cmd erpc.CallCmd, arg interface{
 	}
 	if want := tok.ReplyPayload(t); rp != want {
 		cs.report("caller-result-corrupt", kind, fmt.Sprintf("token %q: result payload (len %d) %.60q differs from what its handler produced (len %d) %.60q", t, len(rp), rp, len(want), want))
+		return
+	}
+	if tok.Bare(t) {
+		atomic.AddInt64(&cs.bare, 1)
+		if im := cmd.InputMeta(); im != nil {
+			for _, k := range []string{"Rtok", "R1", "Ztail", "Tok", "M1"} {
+				if v := im.Peek(k); len(v) > 0 {
+					cs.report("caller-meta-foreign", kind, fmt.Sprintf("token %q: its reply was written without metadata, the caller sees %s=%q", t, k, v))
+					return
+				}
+			}
+		}
 		return
 	}
 	if a := acceptFor(kind, t); a != 0 {
@@ -517,6 +537,7 @@ func runCase(id string, cfg Config, r *core.Rand) {
 	core.Add("pushes_sent", cs.pushesSent)
 	core.Add("raw_pushes_sent", cs.rawPushes)
 	core.Add("replies_in_an_accepted_codec_checked", cs.acceptAsked)
+	core.Add("ok_calls_without_any_metadata", cs.bare)
 	core.Add("pushes_received", atomic.LoadInt64(&cs.pushRecv))
 	core.Add("handler_invocations", mon.Handled)
 	core.Add("ctx_recycles_observed", mon.Recycles)
@@ -749,6 +770,7 @@ func main() {
 		gates.Install()
 	}
 	tok.Lean = *lean
+	tok.BareEnabled = true
 	erpc.SetLoggerOutputter(discard{})
 	// the logger level is a plain process global: it is set once per worker process, never while traffic runs
 	logLevel := []string{"OFF", "OFF", "DEBUG"}[*batch%3]
